@@ -16,7 +16,7 @@ META = {
             "stores that differ only in secret-typed fields (C44_structs). Tie: the extracted rule lists drive the "
             "Lean model, which is compared with the real handlers on every defined setting name and on hostile "
             "variants (correspondence). Search (not proof): canaries planted in every store and secret setting, "
-            "every GET route of the real route table + create/update/delete echoes requested as root, every response "
+            "every GET route of the real route table + create/update/delete echoes + every other method (PATCH/PUT/POST/DELETE) of every /admin and /dsns endpoint with empty, change-nothing and change-one-field bodies, requested as root, every response "
             "scanned for each canary and its hex/base64/URL/JSON forms; data source names of every provider spelling "
             "(sqlite, sqlite3, postgres, case variants, others, none), each with a unique marker as its password, created "
             "through POST /dsns and written into the store directly, then every DSN endpoint (create, get, list with paging, "
@@ -202,6 +202,10 @@ def run(ctx):
         if c.get("dsn_used_dsn-use-unescaped-password", 0) < 2 or c.get("dsn_use_requests", 0) < 10:
             ctx.broken.append("DSN phase: only %d connecting requests, %d DSNs with a password that needs escaping"
                               % (c.get("dsn_use_requests", 0), c.get("dsn_used_dsn-use-unescaped-password", 0)))
+        for m, least in (("PATCH", 100), ("POST", 20), ("PUT", 4), ("DELETE", 8)):
+            if c.get("sweep_2xx_" + m, 0) < least:
+                ctx.broken.append("method sweep: only %d %s requests to administrative / DSN endpoints were answered 2xx (of %d sent)"
+                                  % (c.get("sweep_2xx_" + m, 0), m, c.get("sweep_requests_" + m, 0)))
         if c.get("dsn_requests", 0) < 150:
             ctx.broken.append("DSN phase: only %d requests" % c.get("dsn_requests", 0))
         if c.get("log_capture_failed", 0) or c.get("log_lines", 0) < 1000:
@@ -224,6 +228,7 @@ def run(ctx):
                       and [(r["kind"], r["arg"]) for r in ex["all"]] == STATIC_FIXED},
         "get_routes_exercised": get_routes,
         "dsn_phase": {k: v for k, v in c.items() if k.startswith(("dsn_", "log_"))},
+        "method_sweep": {k: v for k, v in c.items() if k.startswith("sweep_")},
         "search_label": "canary scan is a SEARCH over the real route table, not a proof",
     })
     return ctx.finish(level="proof")
